@@ -673,6 +673,53 @@ def _set_after_success(fi: FuncInfo, name: str) -> bool:
     return True
 
 
+def d8_message_coupling(chk: Check) -> None:
+    """yaml-set tells "refused to delete the document root" from other
+    library errors by a phrase of the exception's message and silently
+    drops the others.  The phrase must occur in a message the library
+    actually raises, or the refusal is swallowed: the tool exits 0 and
+    rewrites the file (and its backup)."""
+    prog = chk.prog
+    chk.rule("C17-D8", "every message phrase a tool tests an exception for "
+             "occurs in a message raised by the library", floor=1)
+    raised: List[str] = []
+    for fi in prog.functions.values():
+        if fi.module.relpath.startswith("yamlpath/commands/"):
+            continue
+        for r in walk_local(fi.node):
+            if isinstance(r, ast.Raise) and isinstance(r.exc, ast.Call):
+                for a in ast.walk(r.exc):
+                    if isinstance(a, ast.Constant) and \
+                            isinstance(a.value, str):
+                        raised.append(a.value)
+    n = 0
+    for fi in prog.functions.values():
+        if not fi.module.relpath.startswith("yamlpath/commands/"):
+            continue
+        for c in walk_local(fi.node):
+            if isinstance(c, ast.Compare) and len(c.ops) == 1 and \
+                    isinstance(c.ops[0], (ast.In, ast.NotIn)) and \
+                    isinstance(c.left, ast.Constant) and \
+                    isinstance(c.left.value, str) and \
+                    isinstance(c.comparators[0], ast.Attribute) and \
+                    c.comparators[0].attr in ("user_message", "message"):
+                n += 1
+                phrase = c.left.value
+                text = "{}: {!r} in <exception message>".format(
+                    fi.short, phrase[:40])
+                if any(phrase in m for m in raised):
+                    chk.ok("C17-D8", fi, c, text,
+                           "phrase found in a raised message")
+                else:
+                    chk.fail("C17-D8", fi, c, text,
+                             "no message raised by the library contains "
+                             "this phrase any more: the error it is meant "
+                             "to recognise is treated like the ones the "
+                             "tool ignores")
+    if n == 0:
+        raise AnalysisError("no message-phrase test found in the tools")
+
+
 def run(chk: Check) -> None:
     model = CliModel(chk.prog)
     d1_no_exit_after_write(chk, model)
@@ -681,6 +728,7 @@ def run(chk: Check) -> None:
     d4_restore(chk, model)
     d5_fault_points(chk, model)
     d6_rotate(chk, model)
+    d8_message_coupling(chk)
     # "unreadable input: non-zero status, file unchanged": a failed load
     # must not be mistaken for an empty document that is then written out
     from rules.c16 import d8_loaded_documents
